@@ -161,10 +161,10 @@ CLAIMED = {
          "the identity at equal size and passes through the original samples when the new grid contains the old nodes (from the spline's "
          "interpolation contract: decides aotools' coordinate/axis handling), that the azimuthal average of a constant image is that constant "
          "and every value lies within the data range (rings proved non-empty), and that the encircled-energy curve of a non-negative image is "
-         "within [0,1], non-decreasing and 0 for an empty mask (nested circles from C14). Binning is compared bit-exactly, zoom with every "
+         "within [0,1], non-decreasing and 0 for an empty mask (nested circles from C14), that the curve encircled_energy actually returns (resampled by the modelled numpy.interp) starts at (0,0), stays in [0,1] and is monotone, that the reported diameter is the first grid point closest to the requested fraction, and that zoom samples the spline at i(N-1)/(new-1) (hence is exact for whatever the spline reproduces and linear when the spline is). Binning is compared bit-exactly, zoom with every "
          "spline evaluation recorded, radial reductions at 1e-12. zoom (interp2d) being unusable with the installed SciPy is a known finding; zoom_rbs rejecting integer sizes was repaired (5b6329f)."),
    ref="5 C16",
-   note="FITPACK spline enters by contract (interpolation, linearity, polynomial reproduction tested numerically); numpy.interp/argmin of encircled_energy only tested."),
+   note="FITPACK spline enters by contract (interpolation, linearity, polynomial reproduction tested numerically); polynomial reproduction / linearity of FITPACK itself are contracts."),
  "C06": dict(
    technique="Coq proof over an effect model instantiated with a footprint table regenerated from source + dynamic interleaving/bitwise reproduction runs",
    text=("The syntactic footprint of every function (in-place writes through parameters and their aliases, returned aliases, use of NumPy's "
